@@ -21,9 +21,9 @@ ASSUMPTIONS = ['unconstrained, unbounded, finite objectives', 'Powell is compare
                'the exponential rule is mystic\'s while-form: positions n, n+1, ... are mutated while draw < CR (possibly none)',
                'xopt/fopt compared with rel 1e-9, counts exactly']
 CLASSES = {
-    'nelder_mead': {'quick': 2640, 'thorough': 26400},
-    'powell': {'quick': 1200, 'thorough': 12000},
-    'de_trials': {'quick': 1920, 'thorough': 19200},
+    'nelder_mead': {'quick': 5280, 'thorough': 26400},
+    'powell': {'quick': 2400, 'thorough': 12000},
+    'de_trials': {'quick': 3840, 'thorough': 19200},
 }
 MIN_EVENTS = {'quick': {'assert:nm': 800, 'assert:powell': 300, 'trials_judged': 4000, 'assert:select': 500}}
 CASE_TIMEOUT = 180
